@@ -267,10 +267,26 @@ func (fr *frame) dynamicCall(x *ssa.Call, v *Term, args []*Term, st *state) {
 	g := fr.g
 	g.usedAssumptions["dynamic calls (function values not statically known) return arbitrary well-typed results and do not modify modelled memory"] = true
 	g.safety(fr, st, "nil-func-call", fr.srcAnchor(x.Pos(), isCall, "call"), x.Pos(), "(not (= "+v.S+" 0))")
-	vals := fr.freshResults(x, x.Common().Signature(), st, "dyn")
-	// record the call in the ghost call log (callee id); used by C10's call-site obligations
+	// ghost call log (callee id per call); results are uninterpreted functions of (callee, call number):
+	// arbitrary per call, yet nameable in contracts as (dynres_<i>_<sort> fn k)
 	cnt := g.base(st, "dyn.n", "Int", 0, false)
 	fns := g.base(st, "dyn.fn", "Int", 1, false)
+	sig := x.Common().Signature()
+	var vals []*Term
+	for i := 0; i < sig.Results().Len(); i++ {
+		rt := sig.Results().At(i).Type()
+		srt := g.U.sortOf(rt)
+		if srt == "" {
+			vals = append(vals, fr.symbolic(fr.name(x)+"_dyn", rt, st))
+			continue
+		}
+		fname := fmt.Sprintf("dynres_%d_%s", i, sanitizeSym(srt))
+		g.declareFun(fname, "(Int Int) "+srt)
+		n := g.fresh(fr.name(x)+"_dyn", srt)
+		g.assert("(= " + n + " (" + fname + " " + v.S + " " + cnt + "))")
+		g.assumeType(rt, n, st, false)
+		vals = append(vals, &Term{S: n, T: rt})
+	}
 	n1 := g.newVersion(st, "dyn.n")
 	g.assert("(= " + n1 + " (+ " + cnt + " 1))")
 	f1 := g.newVersion(st, "dyn.fn")
@@ -327,6 +343,11 @@ func (fr *frame) invoke(x *ssa.Call, st *state) {
 			vals = append(vals, fr.symbolic(fr.name(x)+"_inv", rt, st))
 		}
 	}
+	// ghost per-method call counter
+	cb := "inv." + name + ".n"
+	c0 := g.base(st, cb, "Int", 0, false)
+	c1 := g.newVersion(st, cb)
+	g.assert("(= " + c1 + " (+ " + c0 + " 1))")
 	fr.noteLastErr(vals, st)
 	fr.setResult(x, vals)
 }
